@@ -138,6 +138,10 @@ impl Ctx {
         self.last_op = Some(name.to_string());
     }
     pub fn trace(&mut self, s: &str) {
+        // debugging aid for replays (stderr only; the digest is unaffected)
+        if trace_echo() {
+            eprintln!("trace[{}]: {s}", self.step);
+        }
         self.hasher.update((s.len() as u32).to_be_bytes());
         self.hasher.update(s.as_bytes());
     }
@@ -692,4 +696,9 @@ pub fn merge_agg(a: &mut Agg, b: Agg) {
     a.samples.extend(b.samples);
     a.samples.truncate(4);
     a.digests.extend(b.digests);
+}
+
+fn trace_echo() -> bool {
+    static ON: std::sync::OnceLock<bool> = std::sync::OnceLock::new();
+    *ON.get_or_init(|| std::env::var_os("WWSIM_TRACE").is_some())
 }
